@@ -328,3 +328,12 @@ def krylov_step_excess(calls, hams, target_times, gens=None):
         else:
             other.append((k, err, c["tol"]))
     return excess, known, other
+
+
+def get_at(results, tag, t_rel, tol=1e-9):
+    """value stored for `tag` at the stored time closest to t_rel (stored times carry rounding from the relative/absolute conversion)"""
+    times = results.get_result_times(tag)
+    tn_ = min(times, key=lambda x: abs(float(x) - t_rel))
+    if abs(float(tn_) - t_rel) > max(tol, 1e-6):
+        raise ValueError(f"{tag} not stored near t={t_rel}: {times}")
+    return results.get_result(tag, tn_)
